@@ -310,3 +310,59 @@ pub struct XQuery {
 
 /// Copy of a storage's bookkeeping (from the `gecs_verif` hook).
 pub use gecs::__internal::VerifDump;
+
+/// Engine B (C11): one runtime-borrowed access.
+#[derive(Clone, Copy, Debug, PartialEq, Eq, Hash, PartialOrd, Ord)]
+pub enum BKind {
+    FindBorrowS,
+    FindBorrowM,
+    IterBorrowS,
+    IterBorrowM,
+    CompS,
+    CompM,
+    SliceS,
+    SliceM,
+    CloneWorld,
+}
+
+impl BKind {
+    pub const ALL: [BKind; 9] = [BKind::FindBorrowS, BKind::FindBorrowM, BKind::IterBorrowS, BKind::IterBorrowM, BKind::CompS, BKind::CompM, BKind::SliceS, BKind::SliceM, BKind::CloneWorld];
+    pub fn mutable(&self) -> bool {
+        matches!(self, BKind::FindBorrowM | BKind::IterBorrowM | BKind::CompM | BKind::SliceM)
+    }
+    pub fn needs_entity(&self) -> bool {
+        matches!(self, BKind::FindBorrowS | BKind::FindBorrowM | BKind::CompS | BKind::CompM)
+    }
+    pub fn name(&self) -> &'static str {
+        match self {
+            BKind::FindBorrowS => "find_borrow(&)",
+            BKind::FindBorrowM => "find_borrow(&mut)",
+            BKind::IterBorrowS => "iter_borrow(&)",
+            BKind::IterBorrowM => "iter_borrow(&mut)",
+            BKind::CompS => "Borrow::component",
+            BKind::CompM => "Borrow::component_mut",
+            BKind::SliceS => "borrow_slice",
+            BKind::SliceM => "borrow_slice_mut",
+            BKind::CloneWorld => "clone",
+        }
+    }
+}
+
+#[derive(Clone, Copy, Debug, PartialEq)]
+pub struct BAccess {
+    pub kind: BKind,
+    pub arch: usize,
+    pub col: usize,
+    /// entity for find_borrow / Borrow::component(_mut); may be a stale handle
+    pub key: Option<Raw>,
+    /// stamp written by mutable accesses (to the entity / the first visited entity / position 0)
+    pub write: u64,
+}
+
+/// What an access saw when it executed: the handle it was about (if any) and the stamp(s)
+/// it read before writing.
+#[derive(Clone, Debug, Default, PartialEq)]
+pub struct BObs {
+    pub raw: Option<Raw>,
+    pub vals: Vec<u64>,
+}
